@@ -1055,7 +1055,8 @@ func runExtras(row extrasRow) (returned []int, trouble string) {
 	// dial side: the rogue listener serves the i-th accepted connection as kind[i]
 	accepted := map[string]int{}
 	var mu sync.Mutex
-	var wg sync.WaitGroup
+	serving := 0 // connections the rogue listener is still answering (a counter under mu: the accept loop may take a
+	// connection at the very moment the dial loop returns, which a WaitGroup does not allow)
 	go func() {
 		for i := 0; i < n; i++ {
 			c, err := ln.lt.Accept(ctx)
@@ -1064,16 +1065,24 @@ func runExtras(row extrasRow) (returned []int, trouble string) {
 			}
 			mu.Lock()
 			accepted[ekmKey(c)] = i + 1
+			serving++
 			mu.Unlock()
-			wg.Add(1)
 			func(c transfer.Conn, kind string) {
-				defer wg.Done()
+				defer func() { mu.Lock(); serving--; mu.Unlock() }()
 				extrasListenPeer(ctx, c, kind, code)
 			}(c, row.Kinds[i])
 		}
 	}()
 	conns, closeAll, _ := app.VerifDialExtraConns(ctx, code, ln.udp.LocalAddr().(*net.UDPAddr), n)
-	wg.Wait()
+	for k := 0; k < 7500; k++ {
+		mu.Lock()
+		busy := serving
+		mu.Unlock()
+		if busy == 0 {
+			break
+		}
+		time.Sleep(2 * time.Millisecond)
+	}
 	for _, c := range conns {
 		la := ekmKey(c)
 		mu.Lock()
